@@ -16,7 +16,8 @@ D = os.path.join(SPECS, "raw")
 
 def run(chk):
     cfg = os.path.join(chk.workdir, "lefraw.cfg")
-    open(cfg, "w").write("SPECIFICATION Spec\nINVARIANTS ScaleSound BadAreBad Emit\nCHECK_DEADLOCK FALSE\n")
+    nrand = 4000 if chk.tier == "thorough" else 60
+    open(cfg, "w").write(f"SPECIFICATION Spec\nCONSTANT NRand = {nrand}\nINVARIANTS ScaleSound BadAreBad Emit\nCHECK_DEADLOCK FALSE\n")
     r = chk.tlc.check(os.path.join(D, "MC_LefRaw.tla"), cfg, timeout=3600)
     chk.add_tlc("MC_LefRaw sizes, shapes, structures over decimal classes", r)
     chk.tlc_must_pass("MC_LefRaw", r)
